@@ -39,3 +39,8 @@ package barriers
 //@   props C05 C01 C07
 //@   requires typeis(payload, *errorspb.EncodedError) && payload.(*errorspb.EncodedError).Error != nil ==> complete(deref(payload.(*errorspb.EncodedError)))
 //@   ensures typeis(payload, *errorspb.EncodedError) && payload.(*errorspb.EncodedError).Error != nil ==> typeis(result, *barrierErr)
+
+//@ method (*barrierErr).SafeDetails
+//@   props C03 C12 C07
+//@   ensures[C03] safeSeq(result)
+//@   loop 1: invariant safeSeq(details)
